@@ -921,6 +921,7 @@ func runMsgList(c *Case) lib.Result {
 
 func msgFeatureTags(ms []*Msg) []string {
 	var nilMsg, tcs, nilIdx, dupInChunk, meta, negUsage, lp, extra, multi bool
+	merged, distinct := 0, map[int64]bool{}
 	for _, m := range ms {
 		if m.Nil {
 			nilMsg = true
@@ -931,7 +932,12 @@ func msgFeatureTags(ms []*Msg) []string {
 			tcs = true
 			if t.Idx == nil {
 				nilIdx = true
+				merged++
 			} else {
+				if !distinct[*t.Idx] {
+					distinct[*t.Idx] = true
+					merged++
+				}
 				if seen[*t.Idx] {
 					dupInChunk = true
 				}
@@ -950,7 +956,7 @@ func msgFeatureTags(ms []*Msg) []string {
 	}
 	var out []string
 	for name, b := range map[string]bool{"nil-chunk": nilMsg, "toolcalls": tcs, "nil-index": nilIdx, "dup-index-in-chunk": dupInChunk,
-		"meta": meta, "neg-usage": negUsage, "logprobs": lp, "extra": extra, "multi": multi} {
+		"meta": meta, "neg-usage": negUsage, "logprobs": lp, "extra": extra, "multi": multi, "merged-calls>12": merged > 12} {
 		if b {
 			out = append(out, "feat:"+name)
 		}
@@ -965,6 +971,10 @@ type msgProfile struct {
 	role, name, tcid string
 	keyTypes         map[string]int
 	depth            int
+	// wide > 0: "many tool calls" profile (a model that issues a long list of parallel calls):
+	// indexes drawn from 0..wide-1, 2-6 fragments per chunk, a quarter of them without index,
+	// so that the merged list is longer than the small lists every other case produces
+	wide int
 }
 
 func pickConsistent(r *lib.Rng, base string, others []string) string {
@@ -980,10 +990,19 @@ func pickConsistent(r *lib.Rng, base string, others []string) string {
 var idxPool = []int64{0, 0, 1, 1, 2, 5, -1}
 var finishPool = []string{"", "", "stop", "length", "tool_calls"}
 
-func genTC(r *lib.Rng) TC {
+func genTC(r *lib.Rng, wide int) TC {
 	t := TC{Args: r.Pick(strPool)}
-	if !r.Chance(1, 6) {
+	if wide > 0 && r.Chance(1, 4) {
+		// a complete call without index, distinguishable from its neighbours
+		t.ID = fmt.Sprintf("n%d", r.Intn(40))
+		t.Name = "fnil"
+		return t
+	}
+	if wide > 0 || !r.Chance(1, 6) {
 		v := idxPool[r.Intn(len(idxPool))]
+		if wide > 0 {
+			v = int64(r.Intn(wide))
+		}
 		t.Idx = &v
 		if r.Chance(1, 3) {
 			t.ID = fmt.Sprintf("call_%d", v)
@@ -1037,11 +1056,17 @@ func genMsg(r *lib.Rng, p *msgProfile) *Msg {
 		m.Multi = []string{}
 	}
 	switch {
+	case p.wide > 0:
+		nt := r.Range(2, 6)
+		m.TCs = []TC{}
+		for i := 0; i < nt; i++ {
+			m.TCs = append(m.TCs, genTC(r, p.wide))
+		}
 	case r.Chance(1, 2):
 		nt := r.Range(1, 3)
 		m.TCs = []TC{}
 		for i := 0; i < nt; i++ {
-			m.TCs = append(m.TCs, genTC(r))
+			m.TCs = append(m.TCs, genTC(r, 0))
 		}
 	case r.Chance(1, 10):
 		m.TCs = []TC{}
@@ -1134,6 +1159,12 @@ func genMsgCase(r *lib.Rng, tier string) *Case {
 	}
 	n := r.Intn(maxChunks + 1)
 	p := newProfile(r, tier)
+	if r.Chance(1, 9) {
+		p.wide = r.Range(8, 20)
+		if n < 3 {
+			n = r.Range(3, 6)
+		}
+	}
 	for i := 0; i < n; i++ {
 		c.Msgs = append(c.Msgs, genMsg(r, p))
 	}
